@@ -188,6 +188,34 @@ theorem cleared_token_refuses_all (t0 : String) (ops : List Op) (vals : List Str
     respond (tokenAfter t0 (ops ++ [.reload ""])) vals ≠ .data := by
   rw [tokenAfter_append_reload]; exact unconfigured_refuses_all vals
 
+/-! ## Reload in the middle of a request -/
+
+/-- **no_data_without_a_configured_matching_token_under_reload** — wherever a concurrent reload
+(old ↦ new) lands relative to the request's read of the token, data is returned only if the request
+carries a non-empty token that equals the old or the new configured token.  In particular a request
+without a token never gets data, not even while the token is being removed. -/
+theorem no_data_without_a_configured_matching_token_under_reload (split : Nat) (old new : String)
+    (vals : List String) (h : respondUnderReload split old new vals = .data) :
+    headerGet vals ≠ "" ∧ (headerGet vals = old ∨ headerGet vals = new) := by
+  unfold respondUnderReload at h
+  by_cases hs : split = 0
+  · simp only [hs, if_true] at h
+    obtain ⟨h1, h2⟩ := (query_auth_spec new vals).mp h
+    exact ⟨by rw [h2]; exact h1, Or.inr h2⟩
+  · simp only [hs, if_false] at h
+    obtain ⟨h1, h2⟩ := (query_auth_spec old vals).mp h
+    exact ⟨by rw [h2]; exact h1, Or.inl h2⟩
+
+/-- the single read is what this rests on: a checker reading the token once for the guard and once
+more for the comparison hands out data to a token-less request when the token is removed in between -/
+theorem two_reads_would_leak : respondTwoReads "old" "" [] = .data ∧ respondTwoReads "old" "" [""] = .data := by
+  decide
+
+example : respondUnderReload 1 "old" "" [] ≠ .data := by decide
+example : respondUnderReload 0 "old" "" [] ≠ .data := by decide
+example : respondUnderReload 1 "old" "new" ["old"] = .data := by decide
+example : respondUnderReload 0 "old" "new" ["new"] = .data := by decide
+
 /-! Non-vacuity -/
 example : run "old" [.request ["old"], .reload "new", .request ["old"], .request ["new"], .reload "",
     .request ["new"], .request [""]] =
